@@ -194,6 +194,31 @@ func init() {
 			case c.Idx < gb:
 				// generated types and values, hostile value features included
 				rv := c.RNG(0)
+				if c.Idx%8 == 5 {
+					// one member kind in every member position (gen.PositionTypes), all entry points
+					kind := gen.PositionKinds[(c.Idx/8)%len(gen.PositionKinds)]
+					nz := func(v reflect.Value) {
+						for try := 0; try < 20; try++ {
+							gen.Fill(rv, v, 2, gen.ValOpts{RoundTrip: true})
+							if !v.IsZero() {
+								return
+							}
+						}
+					}
+					sub := 5000
+					for _, pt := range gen.PositionTypes(kind) {
+						for _, v := range gen.PositionValues(pt, kind, nz) {
+							if c.Cur(sub, curDesc(pt.T, "", v.Interface(), "")) {
+								ref, _ := stdjson.Marshal(v.Interface())
+								c03Check(c, sub, v.Interface(), pt.T, "", isASCII(ref) && ref != nil, "", entries)
+								c03Check(c, sub, v.Addr().Interface(), reflect.PtrTo(pt.T), "", isASCII(ref) && ref != nil, "", entries[:2])
+								c.NonTrivial(pt.T.String(), string(ref))
+							}
+							sub++
+						}
+					}
+					c.Obs("member_position_cases:"+kind.Name, int64(sub-5000))
+				}
 				for k := 0; k < 24; k++ {
 					o := gen.TypeOpts{FeatureProb: 25}
 					var t reflect.Type
